@@ -442,6 +442,20 @@ def run_prod(res, work, tier, seed):
     for r in runs:
         if not r["cfg"].pop("noremix", False):
             r["ops"] = _remix(rng, r["ops"])
+        # Encoder/Decoder::new_from_iovec: the codec appends after what the OwningIovec already holds
+        if rng.random() < 0.25:
+            pre = _filler(rng.choice([1, 3, 64, 65, 300]), rng)
+            if rng.random() < 0.5:
+                pre[-1] = FE
+            r["cfg"]["pre"] = pre
+            r["cfg"]["pre_m"] = rng.choice(["copy", "borrow"])
+        # Decoder::take_iovec: stop the decoder phase after a random number of its operations
+        if rng.random() < 0.15 and len(r["cfg"]["input"]) <= 70000:
+            fins = [i for i, op in enumerate(r["ops"]) if op["ev"] == "finish"]
+            start = fins[0] + 1 if r["cfg"]["kind"] == "rt" else 0
+            if len(r["ops"]) - 1 > start:
+                cut = rng.randrange(start, len(r["ops"]) - 1)
+                r["ops"] = r["ops"][:cut] + [{"ev": "take_iovec"}]
     runs.sort(key=lambda r: r["cfg"]["iid"])
     by_id = {r["run"]: r for r in runs}
     batch, size, bi = [], 0, 0
